@@ -13,7 +13,11 @@ Streams (all from `ctx.rng`, every failing input is self-contained and replayabl
                  and by sub-boxes (python / numpy integer bounds)
   check_foreign  MRC files written by mrcfile itself: data modes, big-endian, extended header, start indices, axis orders
   session_*      sequences in one process: one object -> many files, two files named alike, read -> write -> read chains
-  big_sparse     files beyond 2 and 4 GiB (sparse), _wide_cases: extents beyond one and two bytes, volumes of 1-10 MB"""
+  big_sparse     files beyond 2 and 4 GiB (sparse), _wide_cases: extents beyond one and two bytes, volumes of 1-10 MB
+  _deepen3       decisions beyond well-formed boxes: `subset` as python slices (None / negative / step / length) per format,
+                 use_memmap granted or dropped, files truncated inside the payload (short reads as coded), EM files with an
+                 unknown type code, EM headers of rank 1-5 volumes, the EM sampling word for exact rates, mrcfile's mode
+                 tables, header read under a permuted MAPC/MAPR/MAPS (in check_foreign)"""
 import ast
 import glob
 import gzip as _gzip
@@ -39,7 +43,11 @@ RULE = ("generated 3-D volumes with pairwise distinct extents (1..7 quick / ..12
         "full, single voxel, empty, full along every subset of axes) otherwise, bounds as python or numpy integers, each with "
         "or without use_memmap; a malformed-box stream (out of range, negative, reversed, wrong rank); sessions in one "
         "process: one object written to every format and again after being changed, two files that differ in name only by "
-        "length / case / directory read alternately, chains read -> write (other format) -> read, the same path rewritten. "
+        "length / case / directory read alternately, chains read -> write (other format) -> read, the same path rewritten; "
+        "subset requests as python slices with None / negative / out-of-range / reversed bounds, steps 0, -1, 1, 2, 3 and 1, 2 or 4 "
+        "entries on every format x gzip; mrc / em files cut short inside the payload (item-aligned and ragged, rows ending at the "
+        "cut); EM files with type codes outside the table; EM files of rank 1-5 densities; dyadic sampling rates incl. 0, negative "
+        "and below 0.001 for the EM sampling word. "
         "distinct = (format, gzip, shape, dtype, layout, box/memmap) tuples whose volume has > 1 voxel and whose box is "
         "non-empty; single-voxel volumes and empty boxes are compared but not counted")
 ASSUMPTIONS = [
@@ -962,6 +970,21 @@ def check_foreign(ctx, fc, nbox=6, model=True, rng=None, boxes=None):
             ctx.agree("_load_mrc header (file written by mrcfile)", inp, "match" if same else
                       {"shape": list(full.data.shape), "origin": np.asarray(full.origin).tolist(), "rate": np.asarray(full.sampling_rate).tolist()},
                       "match" if same else mr)
+        if not standard:
+            # header read under a permuted MAPC/MAPR/MAPS: shape and origin go through the permutation, the sampling rate does not
+            e = "<" if le else ">"
+            w = np.frombuffer(plain[:1024], dtype=e + "i4")
+            fl = np.frombuffer(plain[:1024], dtype=e + "f4")
+            fields = {"nxyz": w[0:3].tolist(), "mode": int(w[3]), "nstart": w[4:7].tolist(), "mxyz": w[7:10].tolist(),
+                      "cella": [_frac(x) for x in fl[10:13]], "mapcrs": w[16:19].tolist(),
+                      "origin": [_frac(x) for x in fl[49:52]], "nsymbt": int(w[23])}
+            mr = d.call("c08.mrcReadCrs", **fields)
+            same = "raised" not in mr and list(full.data.shape) == mr["shape"] and \
+                all(_close(v, Fraction(n, dd), Fraction(1, 2 ** 22)) for v, (n, dd) in zip(full.origin, mr["origin"])) and \
+                all(_close(v, Fraction(n, dd), Fraction(1, 2 ** 22)) for v, (n, dd) in zip(full.sampling_rate, mr["rate"]))
+            ctx.agree("_load_mrc header (permuted MAPC/MAPR/MAPS)", inp, "match" if same else
+                      {"shape": list(full.data.shape), "origin": np.asarray(full.origin).tolist(), "rate": np.asarray(full.sampling_rate).tolist()},
+                      "match" if same else mr)
     nvox = int(np.prod(fc["shape"]))
     okm, mm = _read(path, memmap=True)
     if not okm:
@@ -1008,6 +1031,274 @@ def check_foreign(ctx, fc, nbox=6, model=True, rng=None, boxes=None):
         os.remove(path)
     except OSError:
         pass
+
+
+# ------------------------------------------------------------------------------------------------
+# deepen3: decisions of the readers / writers beyond well-formed boxes — the `subset` argument as python slices (None,
+# negative, step, wrong length) per format, mrcfile's mode table, header read under a permuted MAPC/MAPR/MAPS, EM files
+# with an unknown type code (read as float64), EM headers of non-3-D volumes.
+# ------------------------------------------------------------------------------------------------
+def _gen_slices(rng, shape):
+    """mostly well-formed requests; each axis is perturbed with probability 1/4 (None, negative / out-of-range / reversed
+    bounds, a step), and one request in six has another length than the volume has axes"""
+    rank = 3 if rng.random() < 0.84 else int(rng.choice([1, 2, 4]))
+    out = []
+    for i in range(rank):
+        n = shape[i] if i < len(shape) else 1
+        if rng.random() < 0.2:
+            a, b = 0, n
+        else:
+            a = int(rng.integers(0, n + 1)); b = int(rng.integers(a, n + 1))
+        st = None if rng.random() < 0.7 else 1
+        if rng.random() < 0.25:
+            k = int(rng.integers(0, 4))
+            if k == 0:
+                a = int(rng.integers(-n - 2, n + 3)); b = int(rng.integers(-n - 2, n + 3))
+            elif k == 1:
+                st = int(rng.choice([2, 3, 0, -1, 2]))
+            elif k == 2:
+                a = None if rng.random() < 0.5 else a
+                b = None if a is not None or rng.random() < 0.5 else b
+            else:
+                a, b = b, a
+        out.append([a, b, st])
+    return out
+
+
+def _slice_requests(ctx, rng, nvol, nreq):
+    from tme import Density
+    d = ctx.driver
+    for v in range(nvol):
+        fmt = EXTS[v % len(EXTS)]
+        gz = bool((v // len(EXTS)) % 2)
+        shape = [int(x) for x in rng.choice(np.arange(1, 6), size=3, replace=False)]
+        bits = _finite_bits(rng, int(np.prod(shape)))
+        a = bits.astype(np.uint32).view(np.float32).reshape(shape)
+        _counter[0] += 1
+        p = os.path.join(_dir(), f"s{_counter[0]}.{fmt}")
+        final = _to_file(Density(a, origin=(0, 0, 0), sampling_rate=(1, 1, 1)), p, gz)
+        raw = open(final, "rb").read()
+        plain = _gzip.decompress(raw) if raw[:2] == b"\x1f\x8b" else raw
+        reqs = [_gen_slices(rng, shape) for _ in range(nreq)]
+        fk = "mrc" if fmt in ("mrc", "map") else fmt
+        if fk != "h5":
+            for want_mm in (True, False):
+                got = Density.from_file(final, use_memmap=want_mm)
+                ctx.agree("use_memmap is granted iff asked for and the file does not carry the gzip magic number",
+                          {"slices": True, "fmt": fmt, "gzip": gz, "shape": shape, "use_memmap": want_mm},
+                          isinstance(got.data, np.memmap), d.call("c08.effMemmap", head=raw[:4].hex(), memmap=want_mm))
+                del got
+        if fk == "h5":
+            ms = d.call("c08.sliceReq", fmt="h5", shape=shape, data=_u32(a).reshape(-1).tolist(), reqs=reqs)
+        else:
+            ms = d.call("c08.sliceReq", fmt=fk, file=plain.hex(), header=512 if fk == "em" else 1024, shape=shape, b=4, reqs=reqs)
+        for req, m in zip(reqs, ms):
+            sub = tuple(slice(*r) for r in req)
+            try:
+                r = Density.from_file(final, subset=sub)
+                impl = _arr_res(r)
+            except Exception:  # noqa
+                impl = {"raised": True}
+            mod = {"raised": True} if "raised" in m else {"shape": m["shape"], "data": m["data"]}
+            inp = {"slices": True, "fmt": fmt, "gzip": gz, "shape": shape, "bits": bits.tolist(), "subset": req}
+            ctx.agree(f"{fk} subset given as python slices (None / negative / step / length)", inp, impl, mod)
+            canonical = len(req) == 3 and all(x[0] is not None and x[1] is not None and 0 <= x[0] <= x[1] <= n and x[2] in (None, 1)
+                                              for x, n in zip(req, shape))
+            if canonical:
+                want = a[sub]
+                ok = "raised" not in impl and impl["shape"] == list(want.shape) and impl["data"] == _u32(want).reshape(-1).tolist()
+                ctx.spec("sub-box == slice of the full volume", inp, ok, impl if "raised" in impl else {"got_shape": impl["shape"]},
+                         key=f"{fk}:subset")
+            ctx.count(f"slices:{fk}:" + ("raised" if "raised" in impl else "canonical" if canonical else "accepted-noncanonical"))
+            if "raised" not in impl and int(np.prod(impl["shape"])) > 0:
+                ctx.distinct(("slices", fmt, gz, tuple(shape), json.dumps(req)))
+        try:
+            os.remove(final)
+        except OSError:
+            pass
+
+
+def _mrc_modes(ctx):
+    from mrcfile import utils
+    modes = list(range(0, 17)) + [101]
+    names = ["int8", "int16", "int32", "int64", "uint8", "uint16", "uint32", "float16", "float32", "float64", "complex64", "complex128", "bool"]
+    m = ctx.driver.call("c08.mrcModes", modes=modes, dtypes=names)
+    impl_m = []
+    for k in modes:
+        try:
+            dt = np.dtype(utils.dtype_from_mode(k))
+            impl_m.append([k, dt.name, dt.itemsize])
+        except ValueError:
+            impl_m.append([k, None, None])
+    impl_d = []
+    for nme in names:
+        try:
+            impl_d.append([nme, int(utils.mode_from_dtype(np.dtype(nme)))])
+        except ValueError:
+            impl_d.append([nme, None])
+    ctx.obligation("mrcfile dtype_from_mode == mrcModeTable (model)", impl_m == m["modes"], {"mrcfile": impl_m, "model": m["modes"]})
+    ctx.obligation("mrcfile mode_from_dtype == mrcModeOfDtype (model)", impl_d == m["dtypes"], {"mrcfile": impl_d, "model": m["dtypes"]})
+
+
+def _em_unknown_code(ctx, rng, nvol, nbox):
+    """an EM file whose type code is not in DATA_TYPE_CODING: `_load_em` reads it as float64 (np.dtype(None))"""
+    from tme import Density
+    d = ctx.driver
+    for v in range(nvol):
+        shape = [int(x) for x in rng.choice(np.arange(1, 6), size=3, replace=False)]
+        n = int(np.prod(shape))
+        a = rng.standard_normal(n).reshape(shape)     # float64 on disk: 8-byte items, so no read runs past the end
+        gz = bool(v % 2)
+        _counter[0] += 1
+        p = os.path.join(_dir(), f"u{_counter[0]}.em")
+        final = _to_file(Density(a, origin=(0, 0, 0), sampling_rate=(1, 1, 1)), p, gz)
+        raw = open(final, "rb").read()
+        plain = bytearray(_gzip.decompress(raw) if gz else raw)
+        code = int(rng.choice([0, 4, 7, 10, 11, 64, 127, 128, 200, 255]))
+        plain[3] = code
+        with open(final, "wb") as fh:
+            fh.write(_gzip.compress(bytes(plain)) if gz else bytes(plain))
+        boxes = [[list(x) for x in b] for b in _boxes_random(rng, shape, nbox)]
+        boxes = [b for b in boxes if [e - s for s, e in b] != shape]
+        if not boxes:
+            continue
+        m = d.call("c08.emSubsetAny", file=bytes(plain).hex(), boxes=boxes)
+        for box, mr in zip(boxes, m["res"]):
+            try:
+                r = Density.from_file(final, subset=tuple(slice(s, e) for s, e in box))
+                impl = {"shape": list(r.data.shape), "dtype": r.data.dtype.name, "itemsize": r.data.dtype.itemsize,
+                        "data": np.ascontiguousarray(r.data).view(np.uint64).reshape(-1).tolist() if r.data.dtype.itemsize == 8 else None}
+            except Exception:  # noqa
+                impl = {"raised": True}
+            mod = {"raised": True} if "raised" in mr else {"shape": mr["shape"], "dtype": "float64", "itemsize": m["b"], "data": mr["data"]}
+            ctx.agree("_load_em sub-box of a file with an unknown type code (read as float64)",
+                      {"em_unknown_code": code, "shape": shape, "gzip": gz, "box": box}, impl, mod)
+            ctx.count("em-unknown-code")
+        try:
+            os.remove(final)
+        except OSError:
+            pass
+
+
+def _em_header_rank(ctx, rng):
+    from tme import Density
+    for shape in ([5], [2, 3], [2, 3, 4], [2, 1, 3, 2], [int(rng.integers(1, 5)) for _ in range(int(rng.integers(1, 6)))]):
+        a = np.arange(int(np.prod(shape)), dtype=np.float32).reshape(shape)
+        _counter[0] += 1
+        p = os.path.join(_dir(), f"r{_counter[0]}.em")
+        Density(a, origin=(0,) * len(shape), sampling_rate=(1,) * len(shape)).to_file(p)
+        size = os.path.getsize(p)
+        head = open(p, "rb").read(4 + 4 * len(shape))
+        m = ctx.driver.call("c08.emHeaderLen", shape=shape)
+        ctx.agree("_save_em header length for a volume of any rank", {"em_rank": len(shape), "shape": shape},
+                  {"len": size - a.nbytes, "dims": np.frombuffer(head[4:], "<i4").tolist()},
+                  {"len": m["len"] if m["len"] == m["written"] else [m["len"], m["written"]], "dims": shape[::-1]})
+        os.remove(p)
+
+
+def _truncated(ctx, rng, nvol, nbox):
+    """files cut short inside the payload: the row loop's short reads (frombuffer refuses a ragged byte count, a row of
+    exactly one item is broadcast, any other count is refused), compared with `readSubsetExact`; the same boxes on the
+    complete file must be read identically by the exact and the plain model (theorem readSubsetExact_eq_readSubset)"""
+    from tme import Density
+    d = ctx.driver
+    for v in range(nvol):
+        fmt = ("mrc", "em")[v % 2]
+        gz = bool((v // 2) % 2)
+        shape = [int(x) for x in rng.choice(np.arange(1, 6), size=3, replace=False)]
+        n = int(np.prod(shape))
+        dt = str(rng.choice(["float32", "float32", "int16", "int8"])) if fmt == "em" else "float32"
+        b = np.dtype(dt).itemsize
+        if dt == "float32":
+            a = _finite_bits(rng, n).astype(np.uint32).view(np.float32).reshape(shape)
+        else:
+            a = rng.integers(-100, 100, size=n).astype(dt).reshape(shape)
+        _counter[0] += 1
+        p = os.path.join(_dir(), f"t{_counter[0]}.{fmt}")
+        final = _to_file(Density(a, origin=(0, 0, 0), sampling_rate=(1, 1, 1)), p, gz)
+        raw = open(final, "rb").read()
+        plain = _gzip.decompress(raw) if gz else raw
+        header = len(plain) - n * b
+        r = rng.random()
+        if r < 0.45:     # item-aligned cut
+            cut = header + b * int(rng.integers(0, n))
+        elif r < 0.8:
+            cut = header + int(rng.integers(0, n * b))
+        else:
+            cut = len(plain)
+        short = plain[:cut]
+        with open(final, "wb") as fh:
+            fh.write(_gzip.compress(short) if gz else short)
+        boxes = [[list(x) for x in bx] for bx in _boxes_random(rng, shape, nbox)]
+        # rows that end at the cut, so that single-item reads occur
+        k = max(0, (cut - header) // b - 1)
+        z, rem = divmod(min(k, n - 1), shape[1] * shape[2])
+        y, x = divmod(rem, shape[2])
+        for x0 in range(0, x + 1):
+            boxes.append([[z, z + 1], [y, y + 1], [x0, shape[2]]])
+        boxes = [bx for bx in boxes if [e - s for s, e in bx] != shape]
+        if not boxes:
+            continue
+        ms = d.call("c08.subsets", file=short.hex(), header=header, shape=shape, b=b, boxes=boxes, exact=True)
+        if cut == len(plain):
+            ms2 = d.call("c08.subsets", file=short.hex(), header=header, shape=shape, b=b, boxes=boxes)
+            ctx.obligation("exact and plain sub-box model coincide on a complete file", ms == ms2, {"shape": shape, "boxes": boxes})
+        for box, m in zip(boxes, ms):
+            try:
+                rd = Density.from_file(final, subset=tuple(slice(s, e) for s, e in box))
+                impl = {"shape": list(rd.data.shape), "data": _tokens(rd.data, rd.data.dtype)}
+            except Exception:  # noqa
+                impl = {"raised": True}
+            mod = {"raised": True} if "raised" in m else {"shape": m["shape"], "data": m["data"]}
+            ctx.agree("sub-box read of a truncated file (short reads as coded)",
+                      {"truncated": cut - header, "fmt": fmt, "gzip": gz, "dtype": dt, "shape": shape, "box": box,
+                       "values": _tokens(a, dt)}, impl, mod)
+            ctx.count("truncated:" + ("raised" if "raised" in impl else "ok"))
+        try:
+            os.remove(final)
+        except OSError:
+            pass
+
+
+def _em_rates(ctx, rng, n):
+    """the EM sampling-rate word for dyadic rates (rate * 1000 is exact in floating point, so int() is the truncation of
+    the exact product): word written, rate read back (incl. 0 and rates below 0.001 -> 1 A, negative rates)"""
+    from tme import Density
+    rates = [Fraction(0), Fraction(1, 2048), Fraction(1, 1024), Fraction(-5, 2), Fraction(5, 2), Fraction(2469, 2048), Fraction(-1, 4096)]
+    while len(rates) < n:
+        e = int(rng.integers(0, 13))
+        k = int(rng.integers(-40 * 2 ** e, 4000 * 2 ** e)) if rng.random() < 0.8 else int(rng.integers(-64, 64))
+        rates.append(Fraction(k, 2 ** e))
+    ms = ctx.driver.call("c08.emRate", rates=[[q.numerator, q.denominator] for q in rates])
+    a = np.arange(6, dtype=np.float32).reshape(1, 2, 3)
+    p = os.path.join(_dir(), "rate.em")
+    for q, m in zip(rates, ms):
+        r = float(q)
+        inp = {"em_rate": [q.numerator, q.denominator]}
+        if not -2 ** 31 < int(r * 1000) < 2 ** 31:
+            continue
+        Density(a, origin=(0, 0, 0), sampling_rate=(r, r, r)).to_file(p)
+        word = int(np.frombuffer(open(p, "rb").read()[120:124], "<i4")[0])
+        back = Density.from_file(p).sampling_rate
+        want = Fraction(*m["read"])
+        ctx.agree("_save_em sampling word / _load_em sampling rate (exact rates)", inp,
+                  {"milli": word, "read": [float(x) for x in np.asarray(back)]},
+                  {"milli": m["milli"], "read": [float(np.float32(float(want)))] * 3})
+        if q >= Fraction(1, 1000):
+            ctx.spec("EM sampling rate to the precision of the format (0.001 A)", inp,
+                     all(0 <= q - Fraction(float(x)) < Fraction(1, 1000) + Fraction(1, 2 ** 20) * q for x in np.asarray(back)),
+                     {"got": [float(x) for x in np.asarray(back)]}, key="em:sampling")
+        ctx.count("em-rate:" + ("zero-word" if word == 0 else "negative" if word < 0 else "positive"))
+    os.remove(p)
+
+
+def _deepen3(ctx):
+    _em_rates(ctx, ctx.rng("em-rates"), ctx.budget(60, 400))
+    _truncated(ctx, ctx.rng("truncated"), ctx.budget(24, 160), ctx.budget(4, 8))
+    _mrc_modes(ctx)
+    _slice_requests(ctx, ctx.rng("slices"), ctx.budget(16, 96), ctx.budget(14, 24))
+    _em_unknown_code(ctx, ctx.rng("em-unknown-code"), ctx.budget(10, 60), ctx.budget(5, 8))
+    _em_header_rank(ctx, ctx.rng("em-rank"))
 
 
 # ------------------------------------------------------------------------------------------------
@@ -1384,6 +1675,7 @@ def run(ctx):
     # sessions, large extents, files beyond 4 GiB
     _sessions(ctx, ctx.rng("sessions"), ctx.budget(3, 20), ctx.budget(20, 160), ctx.budget(48, 400))
     _wide_cases(ctx)
+    _deepen3(ctx)
 
 
 def _unknown_failure(ctx):
@@ -1418,6 +1710,9 @@ def replay(ctx, rec):
         print("replay: record carries no concrete input; running the normal check")
         return run(ctx)
     drop = ("box", "memmap", "boxform", "step", "which", "mode_read", "byte_offset", "at")
+    if inp.get("slices") or "em_unknown_code" in inp or "em_rank" in inp or "truncated" in inp or "em_rate" in inp:
+        print("replay: a deepen3 stream record; running those streams")
+        return _deepen3(ctx)
     if inp.get("session"):
         s = {k: v for k, v in inp.items() if k not in ("box", "step", "which")}
         return {"same-object": session_same_object, "two-files": session_two_files, "chain": session_chain}[inp["session"]](ctx, s)
